@@ -244,6 +244,7 @@ func runC05(tier string, seed uint64, o *Out) error {
 	c05NestedShapes(tier, NewRNG(seed*1000003+505), o)
 	c05Concurrent(tier, NewRNG(seed*1000003+515), o)
 	c05Paths(tier, seed, o)
+	c05Output(tier, seed, o)
 	return nil
 }
 
